@@ -165,13 +165,20 @@ pub struct KnownFindings {
 impl KnownFindings {
     pub fn load() -> KnownFindings {
         let p = Path::new(VERIF_ROOT).join("known_findings.json");
-        match std::fs::read_to_string(&p) {
+        let mut k: KnownFindings = match std::fs::read_to_string(&p) {
             Ok(s) => serde_json::from_str(&s).unwrap_or_else(|e| {
                 eprintln!("known_findings.json does not parse: {}", e);
                 std::process::exit(2);
             }),
             Err(_) => KnownFindings::default(),
+        };
+        // Development aid: VERIF_KF_DISABLE=id1,id2 treats those findings as not listed, so that the
+        // search reports (and shrinks) them again.
+        if let Ok(d) = std::env::var("VERIF_KF_DISABLE") {
+            let ids: Vec<&str> = d.split(',').collect();
+            k.findings.retain(|f| !ids.contains(&f.id.as_str()));
         }
+        k
     }
 
     pub fn open_for<'a>(&'a self, prop: &'a str) -> impl Iterator<Item = &'a KnownFinding> + 'a {
